@@ -334,6 +334,45 @@ func c16Defaults(p *core.Program, r *core.Report) {
 		})
 		return true
 	})
+	// the option record's type: what the variadic option functions take (func(*T)); a fresh T made
+	// anywhere on the no-options path has all fields zero, whichever helper makes it
+	var optType *types.Named
+	if sig, ok := fi.Obj.Type().(*types.Signature); ok && sig.Variadic() && sig.Params().Len() > 0 {
+		if sl, ok := sig.Params().At(sig.Params().Len() - 1).Type().(*types.Slice); ok {
+			if fs, ok := sl.Elem().Underlying().(*types.Signature); ok && fs.Params().Len() == 1 {
+				optType = namedOf(fs.Params().At(0).Type())
+			}
+			// or an interface with one method taking the record (opt.apply(o))
+			if it, ok := sl.Elem().Underlying().(*types.Interface); ok && it.NumMethods() == 1 {
+				if ms, ok := it.Method(0).Type().(*types.Signature); ok && ms.Params().Len() == 1 {
+					optType = namedOf(ms.Params().At(0).Type())
+				}
+			}
+		}
+	}
+	if optType == nil && optObj != nil {
+		optType = namedOf(optObj.Type())
+	}
+	freshOpt := func(info *types.Info, e ast.Expr) bool {
+		if optType == nil {
+			return false
+		}
+		e = ast.Unparen(e)
+		if u, ok := e.(*ast.UnaryExpr); ok && u.Op == token.AND {
+			e = ast.Unparen(u.X)
+		}
+		switch v := e.(type) {
+		case *ast.CompositeLit:
+			nt := namedOf(info.TypeOf(v))
+			return nt != nil && nt.Obj() == optType.Obj() && len(v.Elts) == 0
+		case *ast.CallExpr:
+			if id, ok := v.Fun.(*ast.Ident); ok && id.Name == "new" && len(v.Args) == 1 {
+				nt := namedOf(info.TypeOf(v.Args[0]))
+				return nt != nil && nt.Obj() == optType.Obj()
+			}
+		}
+		return false
+	}
 	// a small interpreter of the no-options path: option-struct objects whose fields are all zero
 	// (the fresh struct, and a helper's receiver/parameter bound to it), locals with known values,
 	// helpers (one or several results, named or not) run on their own environment
@@ -343,6 +382,8 @@ func c16Defaults(p *core.Program, r *core.Report) {
 		loc      map[types.Object]string
 		maybeRet bool
 	}
+	var queueCap []string
+	var queuePos token.Pos
 	var eval func(env *dflEnv, e ast.Expr) string
 	var callHelper func(env *dflEnv, call *ast.CallExpr, depth int) []string
 	isZeroStruct := func(env *dflEnv, e ast.Expr) bool {
@@ -367,16 +408,43 @@ func c16Defaults(p *core.Program, r *core.Report) {
 			if isZeroStruct(env, v.X) {
 				return "const:0"
 			}
+			// a limit of the sender read back after it was set
+			if _, tracked := want[v.Sel.Name]; tracked {
+				if cur, ok := val[v.Sel.Name]; ok {
+					return cur
+				}
+			}
 		case *ast.Ident:
+			if env.zero[env.info.ObjectOf(v)] {
+				return "zs"
+			}
 			if s, ok := env.loc[env.info.ObjectOf(v)]; ok {
 				return s
 			}
 		case *ast.CallExpr:
+			if freshOpt(env.info, v) {
+				return "zs"
+			}
+			// the queue the sender drains is made with the limit in force
+			if fn := calleeFunc(env.info, v); fn != nil && fn.Pkg() != nil && strings.HasSuffix(fn.Pkg().Path(), "util/queue") && strings.HasPrefix(fn.Name(), "NewRequest") && len(v.Args) >= 1 {
+				queueCap = append(queueCap, eval(env, v.Args[0]))
+				queuePos = v.Pos()
+				return "?queue"
+			}
 			if tv, ok := env.info.Types[v.Fun]; ok && tv.IsType() && len(v.Args) == 1 {
 				return eval(env, v.Args[0])
 			}
 			if rs := callHelper(env, v, depthOf+1); len(rs) == 1 {
 				return rs[0]
+			}
+		case *ast.UnaryExpr, *ast.CompositeLit:
+			if freshOpt(env.info, e) {
+				return "zs"
+			}
+			if u, ok := e.(*ast.UnaryExpr); ok && u.Op == token.AND {
+				if id, ok := ast.Unparen(u.X).(*ast.Ident); ok && env.zero[env.info.ObjectOf(id)] {
+					return "zs"
+				}
 			}
 		}
 		return "?" + types.ExprString(e)
@@ -443,7 +511,13 @@ func c16Defaults(p *core.Program, r *core.Report) {
 			}
 		case *ast.Ident:
 			if o := env.info.ObjectOf(lv); o != nil {
-				env.loc[o] = s
+				if s == "zs" {
+					env.zero[o] = true
+					delete(env.loc, o)
+				} else {
+					env.loc[o] = s
+					delete(env.zero, o)
+				}
 			}
 		}
 	}
@@ -491,6 +565,8 @@ func c16Defaults(p *core.Program, r *core.Report) {
 							for i, n := range vs.Names {
 								if i < len(vs.Values) {
 									assign(env, n, eval(env, vs.Values[i]))
+								} else if nt := namedOf(env.info.TypeOf(n)); nt != nil && optType != nil && nt.Obj() == optType.Obj() {
+									assign(env, n, "zs")
 								} else {
 									assign(env, n, "const:0")
 								}
@@ -557,6 +633,11 @@ func c16Defaults(p *core.Program, r *core.Report) {
 				return rs, true
 			case *ast.RangeStmt:
 				// options loop: not taken on the no-options path
+			case *ast.ExprStmt:
+				// a helper called for what it stores (p.applySizes(o))
+				if call, ok := ast.Unparen(v.X).(*ast.CallExpr); ok && sure {
+					callHelper(env, call, depthOf+1)
+				}
 			}
 		}
 		return nil, false
@@ -597,8 +678,10 @@ func c16Defaults(p *core.Program, r *core.Report) {
 					po := sub.info.Defs[n]
 					if isZeroStruct(env, call.Args[i]) {
 						sub.zero[po] = true
+					} else if av := eval(env, call.Args[i]); av == "zs" {
+						sub.zero[po] = true
 					} else {
-						sub.loc[po] = eval(env, call.Args[i])
+						sub.loc[po] = av
 					}
 				}
 				i++
@@ -628,6 +711,17 @@ func c16Defaults(p *core.Program, r *core.Report) {
 		top.zero[optObj] = true
 	}
 	run(top, fi.Decl.Body.List, nil, true)
+	if len(queueCap) > 0 {
+		wq := fmt.Sprintf("const:%d", want["logsinkQueueSize"])
+		bad := ""
+		for _, q := range queueCap {
+			if q != wq {
+				bad = q
+			}
+		}
+		r.Check(bad == "", "C16.defaults", "logsink/zip.GetInstance queue capacity", p.Pos(queuePos), "the queue is made with the queue size in force",
+			fmt.Sprintf("with no option supplied the queue is made with capacity %s, not the built-in %d (0 is an unbounded queue)", strings.TrimPrefix(bad, "const:"), want["logsinkQueueSize"]))
+	}
 	for f, w := range want {
 		c := "logsink/zip.GetInstance default " + f
 		got := val[f]
